@@ -11,8 +11,67 @@
 -/
 import YtkProofs.Merge
 import YtkProofs.Heap
+import YtkProofs.Decisions
 
 namespace Ytk.C04
+
+/-! ## decision tables regenerated from the source (extract/tables.go) -/
+section DecisionTables
+open Ytk.TableT
+
+def shapeOfName (s : String) : Option Shape :=
+  if s = "container" then some .container else if s = "list" then some .list
+  else if s = "leaf" then some .leaf else none
+
+/-- the action the regenerated (ordered) chain takes for a pair of node kinds: first matching arm -/
+def decideG : List MergeCase → Shape → Shape → String
+  | [], _, _ => "none"
+  | c :: rest, x, y =>
+    if (c.left == "any" || shapeOfName c.left == some x) && (c.right == "any" || shapeOfName c.right == some y)
+    then c.action else decideG rest x y
+
+def allShapes : List Shape := [.container, .list, .leaf]
+
+/-- (i) The kind dispatch of merger.mergeContainers (a key present on both sides) and of
+    merger.mergeListsMeld (an index present in both lists), regenerated from dom/merge.go as ORDERED case
+    tables, decide as the case table of the model's `mergeNode` does: for every pair of node kinds the
+    first matching arm of the regenerated chain takes the action the first matching arm of the model's
+    table takes (stated on the decisions, not on the spelling of the chain, so that reordering disjoint
+    arms is harmless); and `mergeNode` does what that table says on all nodes and under both list
+    strategies. -/
+theorem merge_cases_table_matches_model :
+    (∀ x ∈ allShapes, ∀ y ∈ allShapes,
+      decideG Generated.mergeContainersCases x y = (mergeDecision x y).goName ∧
+      decideG Generated.mergeListsMeldCases x y = (mergeDecision x y).goName) ∧
+    (∀ (o : ListStrategy) (n v : Node),
+      match mergeDecision n.shape v.shape with
+      | .recurse => ∃ ka kb, n = .cont ka ∧ v = .cont kb ∧ mergeNode o n v = .cont (mergeKvs o ka kb)
+      | .lists => ∃ xa yb, n = .list xa ∧ v = .list yb ∧ mergeNode o n v = .list (mergeList o xa yb)
+      | .coalesce => mergeNode o n v = coalesce n v) :=
+  ⟨by decide +kernel, mergeNode_decision⟩
+
+/-- (ii) the rule of the property on the regenerated chains: where both sides have the key (index),
+    two containers merge recursively, two lists combine by the selected list strategy, and in every other
+    combination of kinds — a kind conflict or two leaves — the values are coalesced (the other side wins
+    unless it is null); the same in mergeContainers and in mergeListsMeld. -/
+theorem merge_cases_table_rule :
+    ∀ t ∈ [Generated.mergeContainersCases, Generated.mergeListsMeldCases],
+      decideG t .container .container = "mergeContainers" ∧
+      decideG t .list .list = "listMergeFn" ∧
+      (∀ x ∈ allShapes, ∀ y ∈ allShapes, ¬(x = .container ∧ y = .container) → ¬(x = .list ∧ y = .list) →
+        decideG t x y = "coalesce") := by
+  decide +kernel
+
+/-- (iii) the chains are not empty, end in a catch-all arm, and no arm is shadowed by an earlier one
+    (every arm is the first match for some pair of kinds) -/
+theorem nonvacuous_merge_cases :
+    ∀ t ∈ [Generated.mergeContainersCases, Generated.mergeListsMeldCases],
+      t ≠ [] ∧ t.getLast? = some ⟨"any", "any", "coalesce"⟩ ∧
+      (t.map (fun c => (c.left, c.right))).Nodup ∧
+      (∀ c ∈ t, ∃ x ∈ allShapes, ∃ y ∈ allShapes, decideG t x y = c.action) := by
+  decide +kernel
+
+end DecisionTables
 
 /-! ### every key of either -/
 
